@@ -133,7 +133,8 @@ CbStep(S, m, e, cb) ==
   ELSE IF cb.k \in {"open", "write", "complete", "error", "interrupted"} /\ cb.w \in DOMAIN m.W THEN
     LET w == m.W[cb.w] IN
     IF cb.k = "open" THEN [m EXCEPT !.W[cb.w].st = IF w.st = "new" THEN (IF cb.res = "ok" THEN "opened" ELSE "openfailed") ELSE w.st]
-    ELSE IF cb.k = "write" THEN [m EXCEPT !.W[cb.w].len = cb.tot, !.W[cb.w].ok = w.ok /\ cb.got = cb.exp]
+    \* a write that the writer refused has not been written
+    ELSE IF cb.k = "write" THEN [m EXCEPT !.W[cb.w].len = cb.tot, !.W[cb.w].ok = w.ok /\ cb.got = cb.exp /\ cb.res = "ok"]
     ELSE IF cb.k = "complete" THEN
        [m EXCEPT !.W[cb.w].st = "done", !.W[cb.w].end = IF w.end = "" THEN "complete" ELSE "both",
                  !.W[cb.w].exact = (w.o > 0 /\ cb.tot = SObj(S, w.o).clen /\ cb.dg = SObj(S, w.o).digest)]
